@@ -1,6 +1,7 @@
 //! mvh — conformance harness binding the TLA+ specification in /verif/spec to cf/miden-vm.
 mod exec;
 mod span;
+mod trace;
 mod util;
 
 fn main() {
@@ -11,6 +12,8 @@ fn main() {
         "replay-span" => span::replay_span(a(2), a(3)),
         "opcodes" => span::opcodes(a(2)),
         "replay-masm" => exec::replay_masm(a(2), a(3)),
+        "determinism" => trace::determinism(a(2), a(3)),
+        "iter-walk" => trace::iter_walk(a(2), a(3)),
         other => {
             eprintln!("unknown sub-command {other}");
             std::process::exit(2);
